@@ -90,8 +90,8 @@ TStep ==
             \* the physical plan a dry run returned, projected by the harness to its executable operations
             \* and their ancestor sets: it must be the plan of Caching.tla
             /\ UNCHANGED <<svars, dry, lastf, lasto>>
-            /\ Note(<< <<"c14_dry_plan_ops", Range(e.ops) = todo>>,
-                       <<"c14_dry_plan_order", \A i \in DOMAIN e.ops : Range(e.anc[i]) = PmAnc(e.ops[i])>>,
+            /\ Note(<< <<"c14_dry_plan_ops", e.known => Range(e.ops) = todo>>,
+                       <<"c14_dry_plan_order", e.known => \A i \in DOMAIN e.ops : Range(e.anc[i]) = PmAnc(e.ops[i])>>,
                        <<"c14_dry_plan_transformed", e.tpok>>,
                        <<"c14_output_node_in_returned_plan", e.outin>>,   \* self-contained: the returned output node is a node of the returned plan      \* transform_physical was applied to the returned plan
                        <<"c14_dry_is_dry", dry>> >>)
